@@ -322,6 +322,25 @@ def one_buffer(case, root, b, world, want_files=True):
     sink2 = Sink()
     FastaStream(sink2, fi2, line_length=line_length, gap_character=b"n").write_assembly(out_asm)
     res["stream_again"] = bytes(sink2.data)
+    # two fragment iterators of the same index consumed alternately (each chunk is
+    # fetched on demand, so whose turn it is must not matter)
+    frs = [r for sc in out_asm.scaffolds for r in sc.rows if not hasattr(r, "gap_type")][:2]
+    if frs:
+        if len(frs) == 1:
+            frs = frs * 2
+        its = [orig_seq(f) for f in frs]
+        got = [bytearray(), bytearray()]
+        alive = [True, True]
+        while any(alive):
+            for k in (0, 1):
+                if alive[k]:
+                    try:
+                        got[k] += next(its[k]).getvalue()
+                    except StopIteration:
+                        alive[k] = False
+        res["interleaved"] = [bytes(got[0]), bytes(got[1])]
+    else:
+        res["interleaved"] = []
     fh = fi2.__dict__.get("fasta_fileandle")
     if fh is not None:
         fh.close()
@@ -415,7 +434,8 @@ def execute_case(case, run_seed, tier, tag=""):
                         continue
                     for key, what in (("index", "index"), ("asm", "derived assembly"), ("fai_bytes", ".fai bytes"),
                                       ("agp_bytes", ".agp bytes"), ("stream", "streamed FASTA bytes"),
-                                      ("stream_again", "bytes of a second stream from the same index object (gap character n)")):
+                                      ("stream_again", "bytes of a second stream from the same index object (gap character n)"),
+                                      ("interleaved", "residues of two fragments whose chunk iterators were consumed alternately")):
                         if res[key] != ref[key]:
                             violations.append({
                                 "oracle": "differential_" + key, "site": what,
